@@ -734,6 +734,88 @@ def c13_reused_dictionary(rng, tier):
     return out
 
 
+@oracle("C13", "structural_spline_distributions")
+def c13_struct_splines(rng, tier):
+    """the B-spline distributions of the structural groups (tube: thickness, radius; wingbox: spar and skin thickness) over the
+    normalised span (0 at the first spanwise station, 1 at the last): equal control points give a constant, two control points give
+    the straight line between them at the panel mid-points, any control points stay within their convex hull, monotone control
+    points give a monotone distribution; without radius control points the radius follows the local chord"""
+    import openmdao.api as om
+    from openaerostruct.structures.tube_group import TubeGroup
+    from openaerostruct.structures.wingbox_group import WingboxGroup
+    nx, ny = _pick_size(rng, tier)
+    ny = max(ny, 3)
+    sym = bool(rng.integers(2))
+    if not sym and ny % 2 == 0:
+        ny += 1             # full-span surfaces have an odd number of spanwise nodes
+    wing = bool(rng.integers(2))
+    s = gen.base_surface(rng, nx, ny, sym, fem="wingbox" if wing else "tube", jitter=0.0, right=bool(sym and rng.uniform() < 0.3))
+    mesh = s["mesh"]
+    y = mesh[0, :, 1]
+    xm = ((y[:-1] + y[1:]) / 2 - y[0]) / (y[-1] - y[0])
+    out = []
+    case = dict(nx=nx, ny=ny, symmetry=sym, model="wingbox" if wing else "tube")
+    if wing:
+        from .specs import _airfoil
+        s.update(_airfoil(rng)); s.pop("thickness_cp", None)
+        names = ["spar_thickness", "skin_thickness"]
+    else:
+        names = ["thickness", "radius"] if rng.uniform() < 0.6 else ["thickness"]
+    ncp = int(rng.integers(2, 6))
+    kind = str(rng.choice(["equal", "two", "monotone", "random"]))
+    cps = {}
+    for nm in names:
+        if kind == "equal":
+            cps[nm] = np.full(ncp, float(rng.uniform(0.002, 0.3)))
+        elif kind == "two":
+            cps[nm] = rng.uniform(0.002, 0.3, size=2)
+        elif kind == "monotone":
+            cps[nm] = np.sort(rng.uniform(0.002, 0.3, size=ncp))[:: int(rng.choice([1, -1]))].copy()
+        else:
+            cps[nm] = rng.uniform(0.002, 0.3, size=ncp)
+        s[nm + "_cp"] = cps[nm].copy()
+    grp = WingboxGroup(surface=s) if wing else TubeGroup(surface=s)
+    prob = om.Problem(reports=False)
+    ivc = om.IndepVarComp(); ivc.add_output("mesh", val=mesh, units="m"); ivc.add_output("t_over_c", val=rng.uniform(0.08, 0.16, size=ny - 1))
+    prob.model.add_subsystem("ivc", ivc, promotes=["*"]); prob.model.add_subsystem("g", grp, promotes=["*"])
+    with quiet():
+        prob.setup(); prob.run_model()
+    for nm in names:
+        v = np.array(prob.get_val(nm), dtype=float).ravel(); cp = cps[nm]
+        tol = 1e-12 * max(np.max(np.abs(cp)), 1e-30)
+        if v.shape != (ny - 1,):
+            out.append(_fail("%s distribution has the wrong length" % nm, list(v.shape), [ny - 1], **case)); continue
+        if kind == "equal" and np.max(np.abs(v - cp[0])) > tol:
+            out.append(_fail("equal %s control points do not give a constant distribution" % nm, v, cp[0], **case))
+        if kind == "two" and np.max(np.abs(v - (cp[0] + (cp[1] - cp[0]) * xm))) > 1e-10 * np.max(np.abs(cp)):
+            out.append(_fail("two %s control points do not give the straight line between them over the normalised span "
+                             "(0 at the first station, 1 at the last; panel mid-points)" % nm, v, cp[0] + (cp[1] - cp[0]) * xm, **case))
+        if np.min(v) < np.min(cp) - tol or np.max(v) > np.max(cp) + tol:
+            out.append(_fail("%s distribution leaves the range of its control points" % nm, [float(np.min(v)), float(np.max(v))],
+                             [float(np.min(cp)), float(np.max(cp))], kind=kind, **case))
+        if kind == "monotone":
+            d = np.diff(v) * np.sign(cp[-1] - cp[0])
+            if np.any(d < -tol):
+                out.append(_fail("monotone %s control points give a non-monotone distribution" % nm, v, "monotone", **case))
+    # the same for the thickness-to-chord distribution of the geometry group (panel mid-points)
+    from openaerostruct.geometry.geometry_group import Geometry
+    tc = rng.uniform(0.06, 0.18, size=2)
+    sg = dict(name="wing", symmetry=s["symmetry"], mesh=mesh.copy(), t_over_c_cp=tc.copy())
+    pg = om.Problem(reports=False); pg.model.add_subsystem("geom", Geometry(surface=sg), promotes=["*"])
+    with quiet():
+        pg.setup(); pg.run_model()
+    v = np.array(pg.get_val("t_over_c"), dtype=float).ravel()
+    if v.shape != (ny - 1,) or np.max(np.abs(v - (tc[0] + (tc[1] - tc[0]) * xm))) > 1e-10:
+        out.append(_fail("two t_over_c control points do not give the straight line between them over the normalised span (panel mid-points)",
+                         v, tc[0] + (tc[1] - tc[0]) * xm, **case))
+    if not wing and "radius" not in names:
+        from openaerostruct.structures.utils import radii
+        r = np.array(prob.get_val("radius"), dtype=float).ravel(); req = radii(mesh, np.array(prob.get_val("t_over_c")))
+        if relerr(r, req) > 1e-12:
+            out.append(_fail("without radius control points the spar radius is not t/c times half the mean chord", r, req, **case))
+    return out
+
+
 @oracle("C13", "defaults_are_noop")
 def c13_defaults(rng, tier):
     nx, ny = _pick_size(rng, tier)
